@@ -725,6 +725,14 @@ func (e *Enc) pureCall(sc *Scope, fn *ssa.Function, args []Val) Val {
 		}
 		return r
 	}
+	if ct := e.prog.contractFor(fn); ct != nil && ct.Pure {
+		who := fn.RelString(nil)
+		rs := e.pureUF(who, args, fn.Signature)
+		if len(rs) == 1 {
+			return rs[0]
+		}
+		return Val{Typ: fn.Signature.Results(), Tup: rs}
+	}
 	if fn.Blocks == nil {
 		panic(unsupported("spec call to function without body: " + fn.String()))
 	}
@@ -767,7 +775,15 @@ func (e *Enc) resolveCallee(sc *Scope, f CExpr) (*ssa.Function, *Val) {
 				}
 			}
 		}
-		recv := e.eval(sc, x.X, nil)
+		recv, isAddr := e.evalAddr(sc, x.X)
+		if !isAddr {
+			recv = e.eval(sc, x.X, nil)
+		} else if _, isPtrVal := recv.Typ.Underlying().(*types.Pointer).Elem().Underlying().(*types.Pointer); isPtrVal {
+			// the expression itself is a pointer-typed field: use its value as receiver
+			recv = e.loadAt(sc.st, recv, recv.Typ.Underlying().(*types.Pointer).Elem())
+		} else if _, isIface := recv.Typ.Underlying().(*types.Pointer).Elem().Underlying().(*types.Interface); isIface {
+			recv = e.loadAt(sc.st, recv, recv.Typ.Underlying().(*types.Pointer).Elem())
+		}
 		pkg := sc.pkg
 		if nt := namedOf(recv.Typ); nt != nil && nt.Obj().Pkg() != nil {
 			pkg = nt.Obj().Pkg()
@@ -817,4 +833,103 @@ func (e *Enc) resolveCallee(sc *Scope, f CExpr) (*ssa.Function, *Val) {
 func (e *Enc) errIs(a, b T) T {
 	e.declUF("err_wraps", "(Int Int) Bool")
 	return Or(Eq(a, b), T{BoolS, app("err_wraps", a.E, b.E)})
+}
+
+// evalAddr evaluates x as an addressable location and returns a pointer to it.
+func (e *Enc) evalAddr(sc *Scope, x CExpr) (Val, bool) {
+	switch n := x.(type) {
+	case *CSel:
+		if id, ok := n.X.(*CIdent); ok {
+			if _, bound := sc.vars[id.Name]; !bound {
+				isLocal := false
+				if sc.fr != nil {
+					_, isLocal = e.tryResolve(sc, id.Name)
+				}
+				if !isLocal && (sc.pkg == nil || sc.pkg.Scope().Lookup(id.Name) == nil) && e.findPkg(sc, id.Name) != nil {
+					return Val{}, false
+				}
+			}
+		}
+		var base Val
+		if b, ok := e.evalAddr(sc, n.X); ok {
+			// base is itself addressable: a struct held by value or a pointer-typed location
+			et := b.Typ.Underlying().(*types.Pointer).Elem()
+			if _, isPtr := et.Underlying().(*types.Pointer); isPtr {
+				base = e.loadAt(sc.st, b, et)
+			} else {
+				base = b
+			}
+		} else {
+			base = e.eval(sc, n.X, nil)
+		}
+		pt, ok := base.Typ.Underlying().(*types.Pointer)
+		if !ok {
+			return Val{}, false
+		}
+		if _, ok := pt.Elem().Underlying().(*types.Struct); !ok {
+			return Val{}, false
+		}
+		pkg := sc.pkg
+		if nt := namedOf(base.Typ); nt != nil && nt.Obj().Pkg() != nil {
+			pkg = nt.Obj().Pkg()
+		}
+		obj, index, _ := types.LookupFieldOrMethod(base.Typ, true, pkg, n.Name)
+		if _, ok := obj.(*types.Var); !ok {
+			return Val{}, false
+		}
+		cur := base
+		for k, fi := range index {
+			stt := cur.Typ.Underlying().(*types.Pointer).Elem().Underlying().(*types.Struct)
+			space, root, prefix, idxs, glob := e.ptrParts(cur)
+			fp := Val{Typ: types.NewPointer(stt.Field(fi).Type()), L: cur.L, P: &PtrInfo{Space: space, Root: root, Prefix: prefix + "." + fieldName(stt, fi), Idxs: idxs, Glob: glob}}
+			if k < len(index)-1 {
+				if _, isPtr := stt.Field(fi).Type().Underlying().(*types.Pointer); isPtr {
+					fp = e.loadAt(sc.st, fp, stt.Field(fi).Type())
+				}
+			}
+			cur = fp
+		}
+		return cur, true
+	case *CIndex:
+		base := e.eval(sc, n.X, nil)
+		if _, ok := base.Typ.Underlying().(*types.Slice); ok {
+			i := e.eval(sc, n.I, types.Typ[types.Int])
+			return e.sliceElemPtr(base, e.toIdx(i, i.Typ)), true
+		}
+	case *CUn:
+		if n.Op == "*" {
+			return e.eval(sc, n.X, nil), true
+		}
+	}
+	return Val{}, false
+}
+
+// pureUF models the result of a `pure` contract function as an uninterpreted function of its arguments.
+func (e *Enc) pureUF(name string, args []Val, sig *types.Signature) []Val {
+	var argT []T
+	for _, a := range args {
+		argT = append(argT, a.L...)
+	}
+	var out []Val
+	for i := 0; i < sig.Results().Len(); i++ {
+		rt := sig.Results().At(i).Type()
+		sh := e.shape(rt)
+		v := Val{Typ: rt, L: make([]T, len(sh))}
+		for k, l := range sh {
+			fname := fmt.Sprintf("pure_%s_%d_%d", sanitize(name), i, k)
+			var sorts, terms []string
+			for _, a := range argT {
+				sorts = append(sorts, a.S.String())
+				terms = append(terms, a.E)
+			}
+			e.declUF(fname, "("+strings.Join(sorts, " ")+") "+l.S.String())
+			if len(terms) == 0 {
+				v.L[k] = T{l.S, fname}
+			} else {
+				v.L[k] = T{l.S, app(fname, terms...)}
+			}
+		}
+		out = append(out, v)
+	}
+	return out
 }
